@@ -281,6 +281,55 @@ def run(tier, replay=None):
                          "%d notifications of %d bytes to a session whose stream was not being read: %d accepted, %d received; the stream shows %s where the "
                          "accepted order is %s (first mismatch at frame %s)" % (bi["n"], bi["payload"], len(r["accepted"]), len(r["received"]),
                                                                                r["received"][:14], r["accepted"][:14], line.get("n")), rp)
+    # ---- a send queued behind another send's write while the stream ends (StaleSend.tla): forced with the hook gates
+    tla.sany("StaleSend"); tla.sany("TraceStaleSend")
+    b = tla.run_tlc("StaleSend", "StaleSend.cfg")
+    if not b.ok:
+        raise common.Broken("StaleSend violates %s" % b.violation)
+    run_.add_tlc(b)
+    b = tla.run_tlc("StaleSend", "StaleSend_bug_earlycheck.cfg")
+    if b.ok or b.violation != "Reached":
+        raise common.Broken("self-test: StaleSend with the check before the lock should violate Reached")
+    run_.add_tlc(b)
+    stale = [{"id": "stale-%s-%s-%s" % (how, end, park.split(".")[-1]), "how": how, "end": end, "park": park}
+             for how in ("notif", "broadcast", "filtered") for end in ("close", "newer") for park in ("sse.write.id", "sse.write.data")]
+    sout = common.run_harness_json(["c05stale"], {"items": stale}, timeout=300, crash_ok=True)
+    if "_crash" in sout:
+        run_.diverge("stale-send process-crash", "the server process crashed: %s" % sout["_crash"][:1200], {"cmd": ["c05stale"], "input": {"items": stale}})
+    else:
+        sitems, srp = [], {}
+        unreal = 0
+        for it, r in zip(stale, sout["results"]):
+            if r.get("broken"):
+                raise common.Broken("stale-send %s: %s" % (r["id"], r["broken"]))
+            run_.evaluations += 1
+            if r.get("unrealised"):
+                unreal += 1
+                continue
+            rp = {"cmd": ["c05stale"], "input": {"items": [it]}, "observed": r, "spec": "StaleSend / TraceStaleSend"}
+            if r["b_hung"]:
+                run_.diverge("stale-send how=%s send-hangs" % it["how"], "the send queued behind the write did not return within 3 s", rp)
+                continue
+            seen_b = bool(r["b_on_old"] or r["b_on_new"])
+            ev = [{"e": "reset"}, {"e": "look", "s": "A"}, {"e": "acq", "s": "A", "refused": False}, {"e": "look", "s": "B"},
+                  {"e": "end", "how": it["end"]}, {"e": "notice"}, {"e": "write", "s": "A", "ok": bool(r["a_ok"]), "seen": False}]
+            refused = not r["b_ok"] and not seen_b
+            ev.append({"e": "acq", "s": "B", "refused": refused})
+            if not refused:
+                ev.append({"e": "write", "s": "B", "ok": bool(r["b_ok"]), "seen": seen_b})
+            sitems.append((r["id"], ev))
+            srp[r["id"]] = (rp, it, r)
+            run_.nontriv(["stale", it["how"], it["end"], it["park"]])
+        if unreal > len(stale) // 2:
+            raise common.Broken("%d of %d stale-send schedules could not be realised" % (unreal, len(stale)))
+        rej = tracebatch.validate(run_, "TraceStaleSend", "TraceStaleSend.cfg", sitems, max_lines=2000, max_rejections=6)
+        for tid, (pos, line) in rej.items():
+            rp, it, r = srp[tid]
+            run_.diverge("stale-send how=%s end=%s reports-reached" % (it["how"], it["end"]),
+                         "send B looked the stream up, waited for the write lock behind send A, and got it after the server had noticed the end of the stream "
+                         "(%s): it reported %s (count %d, err %r), its frame was %s; TLC rejects the log at event %d %s"
+                         % (it["end"], "the session as reached" if r["b_ok"] else "a failure", r["b_count"], r.get("b_err", ""),
+                            "read by the peer" if (r["b_on_old"] or r["b_on_new"]) else "read by nobody", pos, json.dumps(line)), rp)
     run_.rule = ("walks = edge cover of the Push state graph (sessions x stream open/closed x sends x server-request steps incl. "
                  "answers from the wrong session) on a Streamable-HTTP and a legacy SSE server (+ random walks, thorough); "
                  "non-trivial = walks with at least one delivered send or a completed / cancelled server request")
